@@ -38,6 +38,9 @@ type pgPumpReplay struct {
 type pgPumpScenario struct {
 	Name     string
 	Requests [][]pgproto3.FrontendMessage
+	// Pipelined: all requests are written before the first answer is read (pipeline mode of the
+	// extended protocol, as batching drivers use it)
+	Pipelined bool
 }
 
 func pgPumpScenarios() []pgPumpScenario {
@@ -50,10 +53,12 @@ func pgPumpScenarios() []pgPumpScenario {
 		return sess.Ext("", q, nil, nil, rf, nil)
 	}
 	return []pgPumpScenario{
-		{"simple-simple", [][]pgproto3.FrontendMessage{simple("select id, c from t"), simple("select c, id from t")}},
-		{"extended-extended", [][]pgproto3.FrontendMessage{ext("select id, c from t", false), ext("select c, id from t", true)}},
-		{"simple-extended", [][]pgproto3.FrontendMessage{simple("select id, c from t"), ext("select c, id from t", true)}},
-		{"extended-simple", [][]pgproto3.FrontendMessage{ext("select c from t", true), simple("select id, c from t")}},
+		{"simple-simple", [][]pgproto3.FrontendMessage{simple("select id, c from t"), simple("select c, id from t")}, false},
+		{"extended-extended", [][]pgproto3.FrontendMessage{ext("select id, c from t", false), ext("select c, id from t", true)}, false},
+		{"simple-extended", [][]pgproto3.FrontendMessage{simple("select id, c from t"), ext("select c, id from t", true)}, false},
+		{"extended-simple", [][]pgproto3.FrontendMessage{ext("select c from t", true), simple("select id, c from t")}, false},
+		{"pipelined-extended-extended", [][]pgproto3.FrontendMessage{ext("select id, c from t", false), ext("select c, id from t", true)}, true},
+		{"insert-select", [][]pgproto3.FrontendMessage{simple("insert into t (id, plain, c) values (2, 'p2', '\\x" + fmt.Sprintf("%x", pumpPlain) + "')"), simple("select c from t where id = 2")}, false},
 	}
 }
 
@@ -96,13 +101,26 @@ func (sc pgPumpScenario) build(env *sess.PGEnv, ks *filesystem.KeyStore, cfg pgc
 				}
 			}
 			ms.Quiet = false
-			for ri, req := range sc.Requests {
-				for _, m := range req {
-					fe.Send(m)
+			if sc.Pipelined {
+				for _, req := range sc.Requests {
+					for _, m := range req {
+						fe.Send(m)
+					}
 				}
 				if err := fe.Flush(); err != nil {
 					appErr = "send: " + err.Error()
 					return
+				}
+			}
+			for ri, req := range sc.Requests {
+				if !sc.Pipelined {
+					for _, m := range req {
+						fe.Send(m)
+					}
+					if err := fe.Flush(); err != nil {
+						appErr = "send: " + err.Error()
+						return
+					}
 				}
 				var got []sess.Msg
 				for {
